@@ -344,11 +344,12 @@ class Ctx:
             wall_s=round(wall, 2),
             violations=nviol,
         )
-        os.makedirs(os.path.join(VERIF, "evidence"), exist_ok=True)
-        tmp = os.path.join(VERIF, "evidence", f".{self.pid}.json.{os.getpid()}")
+        evdir = os.path.join(VERIF, ".work", "evidence-dev") if getattr(self, "dev_run", False) else os.path.join(VERIF, "evidence")
+        os.makedirs(evdir, exist_ok=True)
+        tmp = os.path.join(evdir, f".{self.pid}.json.{os.getpid()}")
         with open(tmp, "w") as f:
             json.dump(ev, f, indent=1, default=_json_default)
-        os.replace(tmp, os.path.join(VERIF, "evidence", f"{self.pid}.json"))
+        os.replace(tmp, os.path.join(evdir, f"{self.pid}.json"))
 
 
 def _json_default(o):
